@@ -478,6 +478,9 @@ def strload(val: str | bytes | bytearray | memoryview) -> PythonValueT:
     Args:
         val: The string-like input to be decoded.
     """
+    # Mutable buffers can't be cache keys, read them as bytes.
+    if isinstance(val, (bytearray, memoryview)):
+        val = bytes(val)
     loaded = _strload(val)
     # Never hand out the cached instance of a (mutable) container.
     if isinstance(loaded, _IMMUTABLE_TYPES):
